@@ -948,7 +948,13 @@ impl<W: Word, B: AsRef<[W]>> crate::traits::UncheckedIterator
         if self.fill >= bit_width {
             self.fill -= bit_width;
             let res = self.window & self.vec.mask;
-            self.window >>= bit_width;
+            // A shift by W::BITS would overflow (bit width equal to the
+            // word size): in that case the window has been used up
+            self.window = if bit_width == W::BITS {
+                W::ZERO
+            } else {
+                self.window >> bit_width
+            };
             return res;
         }
 
@@ -957,7 +963,11 @@ impl<W: Word, B: AsRef<[W]>> crate::traits::UncheckedIterator
         self.window = *self.vec.bits.as_ref().get_unchecked(self.word_index);
         let res = (res | (self.window << self.fill)) & self.vec.mask;
         let used = bit_width - self.fill;
-        self.window >>= used;
+        self.window = if used == W::BITS {
+            W::ZERO
+        } else {
+            self.window >> used
+        };
         self.fill = W::BITS - used;
         res
     }
@@ -1029,8 +1039,15 @@ impl<W: Word, B: AsRef<[W]>> crate::traits::UncheckedIterator
         self.word_index -= 1;
         self.window = *self.vec.bits.as_ref().get_unchecked(self.word_index);
         let used = bit_width - self.fill;
-        res = ((res << used) | (self.window >> (W::BITS - used))) & self.vec.mask;
-        self.window <<= used;
+        if used == W::BITS {
+            // A shift by W::BITS would overflow (bit width equal to the
+            // word size): the whole word is the result
+            res = self.window & self.vec.mask;
+            self.window = W::ZERO;
+        } else {
+            res = ((res << used) | (self.window >> (W::BITS - used))) & self.vec.mask;
+            self.window <<= used;
+        }
         self.fill = W::BITS - used;
         res
     }
